@@ -3,11 +3,11 @@ CONSTANTS
   NV = 3
   StabV = {}
   HasHf = FALSE
-  Cmds = {}
-  Rewrites = FALSE
-  NP = 3
+  Cmds = {"reset", "force_reset"}
+  Rewrites = TRUE
+  NP = 2
   UseQueue = TRUE
-  SkipQueue = TRUE
+  SkipQueue = FALSE
   Faults = FALSE
   FaultKinds = {"crash", "reject", "third"}
   MaxC = 40
